@@ -1,7 +1,9 @@
 /-
-  SyModel.Hardlink.Update — what `Transferrer::update` (`/repo/src/sync/transfer.rs:195-238`) does
-  to the destination's inode structure. `update` has no hard-link handling at all: every path is
-  sent through `Transport::sync_file_with_delta` (`src/transport/local.rs:334-810`) on its own.
+  SyModel.Hardlink.Update — what a single `Transport::sync_file_with_delta` (`src/transport/local.rs`)
+  does to the destination's inode structure, seen in isolation. Before a68466f every member of a
+  link group was updated this way on its own (see `uncoordinated_update_splits_link_group`); since
+  then group members go through the hand-off of `Protocol.lean`, which uses `writeThrough` /
+  a fresh inode for the owner's operation and re-links the other members.
 
   * destination smaller than `DELTA_THRESHOLD` (10 MiB, l.352-361): `copy_file` → `fs::copy(src, dst)`
     opens the destination with `O_TRUNC` and writes into it — a *write-through*: the inode of `dst`
@@ -22,11 +24,9 @@ abbrev Dst := Nat → Option File
 def sameIno (d : Dst) (p q : Nat) : Prop :=
   ∃ f g, d p = some f ∧ d q = some g ∧ f.ino = g.ino
 
-/-- `fs::copy` over an existing destination: the inode's content changes for all of its names. -/
-def updateSmall (d : Dst) (p : Nat) (c : Nat) : Dst := fun q =>
-  match d p, d q with
-  | some fp, some fq => if fq.ino = fp.ino then some ⟨fq.ino, c⟩ else some fq
-  | _, x => x
+/-- `fs::copy` over an existing destination: the inode's content changes for all of its names
+    (this is the protocol model's `writeThrough`). -/
+def updateSmall (d : Dst) (p : Nat) (c : Nat) : Dst := writeThrough d p c
 
 /-- temp file + `rename`: the path becomes the only name of the fresh inode `fresh`. -/
 def updateLarge (d : Dst) (p : Nat) (fresh : Nat) (c : Nat) : Dst := fun q =>
